@@ -515,6 +515,8 @@ def render_annotated_params(sig):
   def star(prefix, name, annot):
     return prefix + name + (f': {annot}' if annot else '')
   parts = [one(p) for p in sig['pos']]
+  if sig.get('posonly'):
+    parts.insert(sig['posonly'], '/')       # the first `posonly` parameters are positional-only
   if sig['varargs']:
     parts.append(star('*', sig['varargs'], sig.get('varargs_annot')))
   elif sig['kwonly']:
@@ -536,3 +538,22 @@ def annotation_of(sig, name=None, position=None):
     if p[0] == name:
       return p[3]
   return sig.get('varkw_annot') if sig['varkw'] else ''
+
+
+# -- Part 4: legal signatures of a special shape -----------------------------------
+RECEIVER_NAMES = ['self', 'cls', 'this', 'other', 'obj']
+
+
+def special_signature(rng, sig, variant):
+  """`sig` (with at least one positional parameter) as
+     'receiver-name'    a plain function whose first parameter has a name that is
+                        conventional for a method receiver (def f(self, b=10): ...);
+     'positional-only'  the first 1..n positional parameters are positional-only.
+  Returns (signature, tag)."""
+  out = dict(sig, pos=list(sig['pos']), varargs_annot=None, varkw_annot=None)
+  if variant == 'receiver-name':
+    name = rng.choice(RECEIVER_NAMES)
+    out['pos'][0] = (name,) + tuple(sig['pos'][0][1:])
+    return out, f'{name}-first'
+  out['posonly'] = rng.randint(1, len(sig['pos']))
+  return out, 'positional-only'
